@@ -228,6 +228,9 @@ func genBatch(r *vh.RNG, prefix string, nDialects int) *xmlBatch {
 		}
 		if r.Chance(3, 4) {
 			x.Version = fmt.Sprintf("%d", r.Intn(256))
+			if r.Chance(1, 4) {
+				x.Version = "0" // an explicit version 0 is a version like any other (it overrides what the includes say)
+			}
 		}
 		// enums
 		nen := r.Intn(5)
